@@ -43,6 +43,9 @@ var $ifaceKeyFor = x => {
         return 'nil';
     }
     var c = x.constructor;
+    if (c.comparable === false) {
+        $throwRuntimeError("hash of unhashable type " + c.string);
+    }
     /* The type id, unlike the type string, is unique for every distinct type. */
     return c.id + '$' + c.keyFor(x.$val);
 };
